@@ -179,16 +179,30 @@ def check_scorer(ctx, pkg, name, width, inner, mode):
             # (the pooled surroundings and the inner interval are what min_size bounds)
             want1 = lambda c: c.t[0] == "any" and c.t[1].t[0] == "cmp" and c.t[1].t[1] == "<0" and nf_equal(c.t[1].t[2], app("diff", cuts_s, "none", "none", 1) - 1)  # noqa: E731
             ctx.check(bool(guard_outcomes(paths, want1)), "C13.c CHECK-COMPLETE", f"{name}|flank-bound", raise_loc(fired[0], loc), "consecutive cut points are required to be strictly increasing only (each flank >= 1 sample); min_size bounds the inner interval and the pooled surroundings, not each flank", found=[repr(c) for p in fired[:1] for c, v in both_polarities(p.facts) if dpred(c)], expected="any(diff(cuts) < 1)")
-        if name == "LocalAnomalyScore":
-            ipred = lambda c: c.t[0] == "any" and c.t[1].t[0] == "cmp" and "colstack" in c.key  # noqa: E731
-            sized = guard_outcomes(paths, ipred)
-            ok2 = len({c.key for p in sized for c, v in both_polarities(p.facts) if ipred(c) and v}) >= 2 and all(p.outcome == "raise" and p.exc.exc_name == "ValueError" for p in sized)
-            ctx.check(ok2, "C13.c CHECK-COMPLETE", f"{name}|inner-and-surrounding", raise_loc(sized[0], loc) if sized else loc, "the inner interval and the pooled surroundings are each bounded below by min_size (two further guards, ValueError)", found=sorted({repr(c)[:120] for p in sized for c, v in both_polarities(p.facts) if ipred(c) and v}))
+        if name == "LocalAnomalyScore" and ms is not None:
+            # exact bounds: the inner interval [a, b) and the pooled surroundings [s, a) + [b, e) each hold at least min_size rows
+            c = [app("col", cuts_s, NF.const(j)) for j in range(4)]
+            inner_sz = c[2] - c[1]
+            surr_sz = (c[1] - c[0]) + (c[3] - c[2])
+
+            def size_guard(sz):
+                return lambda q: q.t[0] == "any" and q.t[1].t[0] == "cmp" and q.t[1].t[1] == "<0" and nf_equal(q.t[1].t[2], sz - ms)
+
+            for nm, sz in (("inner", inner_sz), ("surrounding", surr_sz)):
+                hit = guard_outcomes(paths, size_guard(sz))
+                okg = bool(hit) and all(p.outcome == "raise" and p.exc.exc_name == "ValueError" for p in hit) and all(any(size_guard(sz)(q) and v is False for q, v in both_polarities(p.facts)) for p in reach)
+                ctx.check(okg, "C13.c CHECK-COMPLETE", f"{name}|{nm}-size", raise_loc(hit[0], loc) if hit else loc, f"rows whose {nm} part ({'cuts[:,2] - cuts[:,1]' if nm == 'inner' else '(cuts[:,1] - cuts[:,0]) + (cuts[:,3] - cuts[:,2])'}) holds fewer than min_size samples are rejected with ValueError on every path to the kernel", found=f"{len(hit)} rejecting paths; size guards seen: {sorted({repr(q)[:90] for p in paths for q, v in p.facts if q.t[0] in ('any', 'all') and 'diff' not in q.key})[:4]}", expected=f"any({sz!r} < {ms!r})")
     else:
         # ------------------------------------------------ ndim / dtype / width
         nd = lambda c: c.t[0] == "cmp" and any(a.kind == "app" and a.args[0] == "ndim" for a in atoms_of(c.t[2]).values())  # noqa: E731
         dt = lambda c: c.t[0] == "opq" and "issubdtype" in c.key and "integer" in c.key  # noqa: E731
-        wd = lambda c: c.t[0] == "opq" and "shape(" in c.key and ("cmp!=" in c.key or "cmp==" in c.key)  # noqa: E731  (an equality test of the last dimension)
+        def wd(c):
+            """an equality test of the last dimension of the caller's array: opaque for an array of unknown shape, a
+            comparison of the free dimension after a 1-D row vector was reshaped to (1, -1)"""
+            if c.t[0] == "opq" and "shape(" in c.key and ("cmp!=" in c.key or "cmp==" in c.key):
+                return True
+            return c.t[0] == "cmp" and c.t[1] in ("!=0", "==0") and any(a.kind == "app" and a.args[0] == "freedim" for a in atoms_of(c.t[2]).values())
+
         # ndim: paths to the kernel must have ndim == 2 established (possibly after the 1-D reshape)
         rej_nd = [p for p in paths if p.outcome == "raise" and any(nd(c) for c, v in both_polarities(p.facts)) and not any(dt(c) or (c.t[0] == "not" and dt(c.t[1])) or wd(c) for c, v in both_polarities(p.facts))]
         ctx.check(bool(rej_nd) and all(p.exc.exc_name == "ValueError" for p in rej_nd), "C13.c CHECK-COMPLETE", f"{name}|ndim", raise_loc(rej_nd[0], loc) if rej_nd else loc, "arrays that are not 2-D (after a 1-D row vector is reshaped) are rejected with ValueError", found=f"{len(rej_nd)} rejecting paths")
